@@ -225,21 +225,27 @@ impl RefTree {
         p
     }
 
-    /// All root-to-leaf paths below (and including) `root`.
+    /// All root-to-leaf paths below (and including) `root`: one per leaf of its subtree, built
+    /// by walking parent links up from each leaf (no recursion, no caching).
     fn paths_from(&self, root: usize) -> Vec<Vec<usize>> {
         let mut out = vec![];
-        let mut stack = vec![vec![root]];
-        while let Some(p) = stack.pop() {
-            let last = *p.last().unwrap();
-            let ch = &self.nodes[&last].children;
-            if ch.is_empty() {
-                out.push(p);
-            } else {
-                for c in ch {
-                    let mut q = p.clone();
-                    q.push(*c);
-                    stack.push(q);
+        for leaf in self.nodes.values().filter(|n| n.children.is_empty()) {
+            let mut p = vec![leaf.id];
+            let mut cur = leaf.id;
+            let mut found = cur == root;
+            while !found {
+                match self.nodes[&cur].parent {
+                    Some(par) => {
+                        p.push(par);
+                        cur = par;
+                        found = cur == root;
+                    }
+                    None => break,
                 }
+            }
+            if found {
+                p.reverse();
+                out.push(p);
             }
         }
         out
